@@ -135,3 +135,73 @@ Qed.
 
 Lemma v_gslb_perm conf conf' : NoDup (map fst conf) -> Permutation conf conf' -> v_gslb conf = v_gslb conf'.
 Proof. intros Hnd Hp. unfold v_gslb. rewrite (gslb_init_perm conf conf' Hnd Hp). reflexivity. Qed.
+
+(* ------------------------------------------------------------------ central theorems *)
+Lemma c13_central i : wf_C13 i = true -> kf_C13 i = 0 -> prop_C13 i (run_C13 i) = true.
+Proof.
+  intros Hwf Hk. unfold wf_C13 in Hwf.
+  repeat match type of Hwf with match ?x with _ => _ end = true => destruct x; try discriminate end.
+  - match type of Hwf with is_some (d_ctable ?t) = true => destruct (d_ctable t) as [f|] eqn:E; [|discriminate] end.
+    eapply prop_model_ctable. exact E.
+  - match type of Hwf with is_some (d_gslb ?g) = true => destruct (d_gslb g) as [f|] eqn:E; [|discriminate] end.
+    eapply prop_model_gslb. exact E.
+  - match type of Hwf with is_some (d_files ?h ?v ?r ?c) = true => destruct (d_files h v r c) as [fs|] eqn:E; [|discriminate] end.
+    eapply prop_model_sdc; [exact E | exact Hk].
+Qed.
+
+Lemma d_c14_gslb_not_reload i x : d_c14_gslb i = Some x -> d_c14_reload i = None.
+Proof.
+  unfold d_c14_gslb, d_c14_reload. intro H.
+  destruct i as [z|b|l]; try discriminate.
+  destruct l as [|v0 l]; try discriminate. destruct v0 as [z|b|l0]; try discriminate.
+  destruct z as [|p|p]; try discriminate. destruct p as [p|p|]; try discriminate. destruct p; try discriminate.
+  repeat (match goal with |- match ?l with _ => _ end = None => destruct l; try reflexivity end).
+  reflexivity.
+Qed.
+
+Lemma gslb_chain_some_last confs : forall s b r,
+  NoDup (map fst s) -> Forall (fun c => NoDup (map fst c)) confs -> NoDup (map fst b) ->
+  gslb_chain s (confs ++ [b]) = Some r -> r = sort_by_name b.
+Proof.
+  induction confs as [|c rest IH]; intros s b r Hs Hall Hb; simpl.
+  - rewrite (sort_merge_eq s b Hs Hb). destruct (pos_total (sort_by_name b) =? 0); [discriminate|]. intro H. inversion H. reflexivity.
+  - inversion Hall as [|? ? Hc Hall']; subst. rewrite (sort_merge_eq s c Hs Hc).
+    destruct (pos_total (sort_by_name c) =? 0); [discriminate|].
+    apply IH; [apply sorted_keys_nodup; exact Hc | exact Hall' | exact Hb].
+Qed.
+
+Lemma v_reload_prop c :
+  forallb (fun a => nodup_str (map fst (weights_of a))) (rc_hist c) = true ->
+  nodup_str (map fst (weights_of (rc_b c))) = true ->
+  v_reload c = VErr 1 \/ v_reload c = VErr 2 \/ exists l, v_reload c = VL [VL l; VL l].
+Proof.
+  intros Hh Hb. unfold v_reload.
+  destruct (gslb_fresh (weights_of (rc_b c))) as [f|] eqn:Ef; [|right; left; reflexivity].
+  destruct (rc_hist c) as [|a rest] eqn:Eh; [left; reflexivity|].
+  destruct (pos_total (weights_of a) =? 0) eqn:Ea; [left; reflexivity|].
+  destruct (gslb_after_history (map weights_of (a :: rest)) (weights_of (rc_b c))) as [h|] eqn:Ehist; [|right; left; reflexivity].
+  assert (h = f).
+  { unfold gslb_after_history in Ehist. cbn [map] in Ehist. rewrite Ea in Ehist.
+    destruct (gslb_chain (sort_by_name (weights_of a)) (map weights_of rest ++ [weights_of (rc_b c)])) as [s|] eqn:Ec; [|discriminate].
+    simpl in Hh. apply andb_true_iff in Hh. destruct Hh as [Ha Hrest].
+    apply gslb_chain_some_last in Ec.
+    - subst s. unfold gslb_fresh in Ef. destruct (pos_total (weights_of (rc_b c)) =? 0); [discriminate|]. congruence.
+    - apply sorted_keys_nodup. apply nodup_str_NoDup. exact Ha.
+    - rewrite Forall_forall. intros x Hx. apply in_map_iff in Hx. destruct Hx as [y [Hy Hin]]. subst x.
+      rewrite forallb_forall in Hrest. apply nodup_str_NoDup. apply Hrest. exact Hin.
+    - apply nodup_str_NoDup. exact Hb. }
+  subst h. right. right. unfold v_half. eexists. reflexivity.
+Qed.
+
+Lemma c14_central i : wf_C14 i = true -> kf_C14 i = 0 -> prop_C14 i (run_C14 i) = true.
+Proof.
+  intros Hwf _. unfold wf_C14 in Hwf. unfold run_C14, prop_C14.
+  destruct (d_c14 i) as [[fs ps]|] eqn:E1.
+  - rewrite (d_c14_not_reload i _ E1). unfold summary. destruct (load_with (fun l => l) fs); reflexivity.
+  - destruct (d_c14_gslb i) as [conf|] eqn:E2.
+    + rewrite (d_c14_gslb_not_reload i _ E2). unfold v_gslb. destruct (gslb_init conf) as [[[[s t] sg] av]|]; reflexivity.
+    + destruct (d_c14_reload i) as [c|] eqn:E3; [|discriminate].
+      apply andb_true_iff in Hwf. destruct Hwf as [Hh Hb].
+      destruct (v_reload_prop c Hh Hb) as [H | [H | [l H]]]; rewrite H; try reflexivity.
+      change (val_eqb (VL l) (VL l) = true). apply val_eqb_refl.
+Qed.
